@@ -132,12 +132,16 @@ def pyInt (l : List Char) (limit : Nat := 4300) : Except Err Int :=
 
 /-! ### `str_to_man_exp`, `from_str` -/
 
+/-- `if x in ('', '+', '-'): x += '0'` -/
+def padEmpty (x : List Char) : List Char :=
+  if x = [] ∨ x = ['+'] ∨ x = ['-'] then x ++ ['0'] else x
+
 /-- the mantissa part of `str_to_man_exp` (after the exponent was split off) -/
 def manExpOfMantissa (x : List Char) (exp : Int) (limit : Nat) : Except Err (Int × Int) :=
   match splitOnC '.' x with
   | [a, b] =>
     let b := rstripL (· == '0') b
-    match pyInt (a ++ b) limit with
+    match pyInt (padEmpty (a ++ b)) limit with
     | .ok v => .ok (v, exp - b.length)
     | .error e => .error e
   | _ =>
@@ -145,10 +149,8 @@ def manExpOfMantissa (x : List Char) (exp : Int) (limit : Nat) : Except Err (Int
     | .ok v => .ok (v, exp)
     | .error e => .error e
 
-/-- `str_to_man_exp(x, base=10)` -/
-def strToManExp (x : List Char) (limit : Nat := 4300) : Except Err (Int × Int) :=
-  let x := rstripL (· == 'l') (x.map lowerC)
-  if !floatOK x then .error .value else
+/-- `str_to_man_exp` after validation and removal of the digit group separators -/
+def strToManExpCore (x : List Char) (limit : Nat) : Except Err (Int × Int) :=
   match splitOnC 'e' x with
   | [_] => manExpOfMantissa x 0 limit
   | m :: e :: _ =>
@@ -156,6 +158,12 @@ def strToManExp (x : List Char) (limit : Nat := 4300) : Except Err (Int × Int) 
     | .ok ev => manExpOfMantissa m ev limit
     | .error err => .error err
   | [] => .error .value
+
+/-- `str_to_man_exp(x, base=10)` -/
+def strToManExp (x : List Char) (limit : Nat := 4300) : Except Err (Int × Int) :=
+  let x := rstripL (· == 'l') (x.map lowerC)
+  if !floatOK x then .error .value else
+  strToManExpCore (x.filter (· != '_')) limit
 
 /-- `from_str(x, prec, rnd)` -/
 def fromStr (x : List Char) (prec : Int) (rnd : Rnd := .d) (limit : Nat := 4300) : Except Err Mpf :=
@@ -242,7 +250,7 @@ def dps_to_prec (n : Nat) : Nat :=
 /-- `repr_dps(n)` -/
 def repr_dps (n : Nat) : Nat :=
   let dps := prec_to_dps n
-  if dps = 15 then 17 else dps + 3
+  if dps = 15 ∧ n ≤ 53 then 17 else dps + 3
 
 /-- `int(dps * math.log(10,2)) + 10` -/
 def bitprecOf (dps : Nat) : Nat := (F64.mul (F64.ofNat dps) F64.log2_10).floor + 10
